@@ -232,7 +232,7 @@ class NearSQLContainer:
                         public_name_quoted=self.public_name_quoted,
                     )
                     if _VERIF_TRACE is not None:
-                        _VERIF_TRACE.cte_event("hit", cte_cache, ops_key, retrieved_cte, stub, sequence)
+                        _VERIF_TRACE.cte_event("hit", cte_cache, ops_key, retrieved_cte, stub, sequence, columns=self.columns)
                     return new_stub, []
                 except KeyError:
                     pass
@@ -263,7 +263,7 @@ class NearSQLContainer:
             if (cte_cache is not None) and (ops_key is not None):
                 cte_cache[ops_key] = new_stub_cte
             if _VERIF_TRACE is not None:
-                _VERIF_TRACE.cte_event("emit", cte_cache, ops_key, new_stub_cte, stub, sequence)
+                _VERIF_TRACE.cte_event("emit", cte_cache, ops_key, new_stub_cte, stub, sequence, columns=self.columns)
         else:
             assert len(sequence) == 0
             new_stub = NearSQLContainer(
